@@ -145,6 +145,26 @@ func getFile(w *world.World, ctx sdk.Context, merkle []byte, owner string, start
 	return w.App.StorageKeeper.GetFile(ctx, merkle, owner, start)
 }
 
+// canonAddr returns the canonical (lower-case) spelling of a bech32 address, or the string itself if it is none.
+func canonAddr(a string) string {
+	if acc, err := sdk.AccAddressFromBech32(a); err == nil {
+		return acc.String()
+	}
+	return a
+}
+
+// acctListed: the file's prover list holds an entry for this account, under whatever spelling of its address.
+func acctListed(f storagetypes.UnifiedFile, acct sdk.AccAddress) bool {
+	for _, pk := range f.Proofs {
+		if i := strings.Index(pk, "/"); i > 0 {
+			if acc, err := sdk.AccAddressFromBech32(pk[:i]); err == nil && acc.Equals(acct) {
+				return true
+			}
+		}
+	}
+	return false
+}
+
 // proverListed: the file's prover list holds an entry for exactly this spelling of the prover (read from the list
 // entries themselves, "<prover>/<merkle>/<owner>/<start>", not through the chain's own lookup helper).
 func proverListed(f storagetypes.UnifiedFile, prover string) bool {
